@@ -380,13 +380,14 @@ const char* side_of(const Combo& c) {
 }
 // sanitizer builds run the same enumerations and a tenth of the sampled cases
 #if defined(__SANITIZE_ADDRESS__)
-constexpr int SAN_DIV = 10;
+#define C03_ASAN 1
 #elif defined(__has_feature)
 #if __has_feature(address_sanitizer)
-constexpr int SAN_DIV = 10;
-#else
-constexpr int SAN_DIV = 1;
+#define C03_ASAN 1
 #endif
+#endif
+#ifdef C03_ASAN
+constexpr int SAN_DIV = 10;
 #else
 constexpr int SAN_DIV = 1;
 #endif
@@ -1242,5 +1243,11 @@ static void cp_gen(Ctx& ctx) {
         return Json::object().set("how", pick(0, CH_N - 1)).set("mut", pick(0, MU_N - 1)).set("op", pick(0, 3)).set("ty", pick(0, 1)).set("n", n).set("vcls", pick(0, V_NCLS - 1)).set("seed", (long long)seed64());
     });
 }
+
+#ifdef C03_ASAN
+// Millions of short-lived arrays allocated below rapidcheck's deep, varied call stacks: the default 256 MB quarantine plus the
+// stack depot grow a shard to several GB (16 shards exhausted the machine).  Values given in ASAN_OPTIONS still take precedence.
+extern "C" const char* __asan_default_options() { return "quarantine_size_mb=32:malloc_context_size=6"; }
+#endif
 
 VK_MAIN("C03")
